@@ -86,7 +86,7 @@ func vxGetPolicy(b *backend, ctx context.Context, req keysutil.PolicyRequest, r 
 
 var vxLocked int
 
-func vxPolicyUnlock(p *keysutil.Policy) { vxLocked-- }
+func vxPolicyUnlock(p *keysutil.Policy)           { vxLocked-- }
 func vxRandReader(b *framework.Backend) io.Reader { return nil }
 
 func vxDecodeBatch(src any, dst *[]BatchRequestItem) error {
@@ -127,7 +127,7 @@ func vxGet(d *framework.FieldData, k string) any {
 	return ""
 }
 func vxStartTx(ctx context.Context, req *logical.Request) (func(), error) { return func() {}, nil }
-func vxEndTx(ctx context.Context, req *logical.Request) error           { return nil }
+func vxEndTx(ctx context.Context, req *logical.Request) error             { return nil }
 
 func vxItemStr(tag string) string {
 	n := vxChoose(tag+" length", 3)
